@@ -962,7 +962,8 @@ class ODLEncoder(PVLEncoder):
         from UTC to be included, and otherwise recommends that times
         be suffixed with a 'Z' to clearly indicate that they are in UTC.
         """
-        if value.tzinfo is None:
+        if value.utcoffset() is None:
+            # No tzinfo, or one that has no offset for a time without a date.
             raise ValueError(
                 f"ODL cannot output local times, and this time does not "
                 f"have a timezone offset: {value}"
